@@ -261,16 +261,18 @@ def fix_powmod(signed_e, big_e):
             e = 0
         if rng.chance(1, 10):
             n = rng.choice([0, 1, -1, m, -m, m + 1])
+        if rng.chance(1, 10):
+            e, m = 0, rng.choice([1, -1])
         if e < 0:
             if not signed_e:
                 e = -e
             elif math.gcd(n, m) != 1:
                 if rng.chance(1, 2):
-                    e = -e
+                    e = min(-e, 2**31 - 1)
                 else:
                     n = n // math.gcd(n, m) if n else 1
                     if math.gcd(n, m) != 1:
-                        e = -e
+                        e = min(-e, 2**31 - 1)
         return [n, e, m]
     return fix
 
@@ -481,3 +483,8 @@ def fix_perfect(rng, a):
 
 
 V("isperfectpower", ["N"], o_perfect, fix=fix_perfect, oracle_only=True)
+
+# the extracted model computes on Coq's binary integers: powers of multi-limb numbers are its slowest cases
+for nm in VARIANTS:
+    if nm.startswith(("pow", "dom_pow")) and "weight" not in VARIANTS[nm]:
+        VARIANTS[nm]["weight"] = 0.5
